@@ -197,7 +197,7 @@ fn c31(args: &Args) {
     let mut ev = Evidence::new(
         args,
         "exploration",
-        "bounded-exhaustive DFS over {append 1-2 consecutive entries at index i<=last+1 (terms non-decreasing), delete_entries_from(i), create_snapshot(i,t)} with indices 1..=5 and terms 1..=3, plus random longer sequences; every read view compared with a reference log after every step. Non-trivial = sequence contains an append at an existing index or a snapshot below the last index; distinct = distinct op sequences.",
+        "bounded-exhaustive DFS (depth 4 quick / 5 thorough) over {append 1-2 consecutive entries at index i<=last+1 (terms non-decreasing), delete_entries_from(i), create_snapshot(i,t)} with indices 1..=4 (5) and terms 1..=2 (3), plus random longer sequences; every read view compared with a reference log after every step. Non-trivial = sequence contains an append at an existing index or a snapshot below the last index; distinct = distinct op sequences.",
     );
     ev.assume("Raft caller preconditions: appends are contiguous (index <= last+1, above the snapshot), terms never decrease along the log, snapshots move forward");
     let kf = Known::load(args);
@@ -604,7 +604,7 @@ fn c33(args: &Args) {
     let mut healthy_reports = 0u64;
     'outer: for (ci, initial) in initials.iter().enumerate() {
         for (si, ops) in seqs.iter().enumerate() {
-            if args.tier == Tier::Quick && ops.len() == 2 && (ci + si) % 4 != 0 {
+            if args.tier == Tier::Quick && ops.len() == 2 && false {
                 continue;
             }
             if args.tier == Tier::Thorough && ops.len() == 3 && (ci + si) % 16 != 0 {
